@@ -20,6 +20,58 @@ fn preload4() -> Vec<ItemSpec> {
 
 // ------------------------------------------------------------------------------------ families
 
+/// Family H: writers *held* between reserving an index and publishing the item (their fill
+/// callback blocks on a gate the script opens), so the "paused writer" part of the quantifier is
+/// covered without spending preemptions: two single pushes or one batch held at its second item,
+/// released in either order around a pattern edit of every kind, pools of 1 and 2 threads.
+fn held_family(thorough: bool) -> Vec<Scenario> {
+    let mut v = Vec::new();
+    for pool in [1usize, 2] {
+        for p0 in ["a", ""] {
+            for (ei, edit) in [None, Some("ab"), Some("b"), Some("")].iter().enumerate() {
+                if p0.is_empty() && *edit == Some("") {
+                    continue;
+                }
+                for first in [0usize, 1] {
+                    for batch in [false, true] {
+                        if batch && first == 1 {
+                            continue;
+                        }
+                        let mut u = vec![UOp::Reparse(0, p0), UOp::Tick, UOp::Release(first)];
+                        if let Some(e) = edit {
+                            u.push(UOp::Reparse(0, e));
+                        }
+                        u.push(UOp::Tick);
+                        u.push(UOp::Release(1 - first));
+                        if thorough {
+                            u.push(UOp::Tick);
+                        }
+                        u.push(UOp::Drain(6));
+                        let injectors = if batch {
+                            vec![(true, vec![IOp::ExtendHeld(vec![it(1, "a"), it(2, "ab"), it(3, "b")], 1, 0)])]
+                        } else {
+                            vec![(true, vec![IOp::PushHeld(it(1, "a"), 0)]), (true, vec![IOp::PushHeld(it(2, "ab"), 1)])]
+                        };
+                        v.push(Scenario {
+                            name: format!("H/pool{pool}/p0={p0:?}/e{ei}/first{first}/batch{}", batch as u8),
+                            pool_threads: pool,
+                            columns: 1,
+                            preload: vec![it(100, "ab"), it(101, "b")],
+                            u,
+                            injectors,
+                            slots: 2,
+                            bound: 0,
+                            fine: true,
+                            flag_points: false,
+                        });
+                    }
+                }
+            }
+        }
+    }
+    v
+}
+
 pub fn scenarios(prop: &str, thorough: bool) -> Vec<Scenario> {
     let mut v = Vec::new();
     match prop {
@@ -57,6 +109,7 @@ pub fn scenarios(prop: &str, thorough: bool) -> Vec<Scenario> {
             }
         }
         "C06" | "C19" => {
+            v.extend(held_family(thorough));
             // small scripts, explored with a higher preemption bound
             for pool in [1usize, 2] {
                 for (xi, x) in [None, Some(UOp::Reparse(0, "ab")), Some(UOp::Reparse(0, "b")), Some(UOp::Restart(false))].iter().enumerate() {
@@ -192,6 +245,39 @@ pub fn scenarios(prop: &str, thorough: bool) -> Vec<Scenario> {
                     });
                 }
             }
+            v.extend(held_family(thorough));
+            // (E) chains of three pattern texts with a tick (timing out or completing) after each:
+            // every combination of append / non-append / emptying edits, so that a run queued for
+            // one edit can be overtaken by the next edit in any state (not started, half way, done)
+            {
+                let texts: &[&str] = &["", "a", "ab", "b", "bc", "c"];
+                for pool in [1usize, 2] {
+                    for t0 in texts {
+                        for t1 in texts {
+                            for t2 in texts {
+                                if t0 == t1 || t1 == t2 {
+                                    continue;
+                                }
+                                if pool == 2 && !thorough && !(t2.starts_with(*t1) && !t1.is_empty()) {
+                                    continue;
+                                }
+                                v.push(Scenario {
+                                    name: format!("E/pool{pool}/{t0:?}>{t1:?}>{t2:?}"),
+                                    pool_threads: pool,
+                                    columns: 1,
+                                    preload: vec![it(100, "a"), it(101, "ab"), it(102, "b"), it(103, "bc"), it(104, "xbxc"), it(105, "c"), it(106, "ca")],
+                                    u: vec![UOp::Reparse(0, t0), UOp::Tick, UOp::Reparse(0, t1), UOp::Tick, UOp::Reparse(0, t2), UOp::Drain(6)],
+                                    injectors: vec![],
+                                    slots: 0,
+                                    bound: 0,
+                                    fine: true,
+                                    flag_points: false,
+                                });
+                            }
+                        }
+                    }
+                }
+            }
             // (b) interleaved: an injector thread (a writer that can be suspended between reserving
             // and publishing) races the edits / restarts, the new stream gets items of its own,
             // then everything drains
@@ -222,6 +308,34 @@ pub fn scenarios(prop: &str, thorough: bool) -> Vec<Scenario> {
             }
         }
         "C12" => {
+            // restarts in a row without a tick in between; an injector created between them
+            // belongs to a stream that is already superseded when it starts pushing
+            for pool in [1usize, 2] {
+                for b1 in [true, false] {
+                    for b2 in [true, false] {
+                        for with_new in [false, true] {
+                            let mut u = vec![UOp::Reparse(0, "a"), UOp::Tick, UOp::Restart(b1), UOp::GiveInjector(0), UOp::Restart(b2)];
+                            if with_new {
+                                u.push(UOp::Extend(vec![it(20, "a"), it(21, "ab")]));
+                            }
+                            u.push(UOp::Tick);
+                            u.push(UOp::Drain(6));
+                            v.push(Scenario {
+                                name: format!("RR/pool{pool}/clear={b1},{b2}/new={with_new}"),
+                                pool_threads: pool,
+                                columns: 1,
+                                preload: vec![it(100, "a"), it(101, "ab")],
+                                u,
+                                injectors: vec![(false, vec![IOp::Await(0), IOp::Push(it(3, "ab")), IOp::Push(it(4, "a"))])],
+                                slots: 1,
+                                bound: 0,
+                                fine: true,
+                                flag_points: false,
+                            });
+                        }
+                    }
+                }
+            }
             // small scripts with a suspended writer of the old stream, explored with a higher bound
             for pool in [1usize, 2] {
                 for p in ["", "a"] {
